@@ -13,10 +13,11 @@ from sv import core
 
 PROPERTY = "C19"
 GEN = []
-PROPS = ["ScoresVerif/Props/C19.lean"]
+PROPS = ["ScoresVerif/Props/C19.lean", "ScoresVerif/Props/C19NextRegular.lean"]
 DRIVER_DEPS = ["ScoresVerif.Driver.C19"]
 AUDIT_FILES = ["ScoresVerif/Model/DieboldMariano.lean", "ScoresVerif/Spec/DieboldMariano.lean",
-               "ScoresVerif/Lemmas/DieboldMariano.lean", "ScoresVerif/Driver/C19.lean"]
+               "ScoresVerif/Lemmas/DieboldMariano.lean", "ScoresVerif/Lemmas/C19NextRegular.lean",
+               "ScoresVerif/Driver/C19.lean"]
 LEVEL = "proof"
 TRUSTED = ["sqrt is uninterpreted in the rational model (harness applies libm sqrt to the exact V_hat and factor)",
            "np.fft (acovf) is not modelled: acovf is compared with the direct biased estimator at every lag",
@@ -38,7 +39,9 @@ MANIFEST = dict(
          "Real.sqrt: hlnReal(-d) = -hlnReal d, hlnReal(c d) = hlnReal d); the factor is positive for h<n; all-zero or V_hat<=0 gives "
          "NaN; for a finite non-zero statistic with the sign of the mean and q>=0 both limits are finite, ci_lower <= mean <= ci_upper "
          "and the half-width is q*|mean/statistic| (partial: known finding F6 excluded by statistic != 0, with a kernel-decided "
-         "counterexample on the witness series); n <= next_regular n, hence the FFT length is >= 2n-1. Tied to the code by "
+         "counterexample on the witness series); for every target >= 1 (no size bound) next_regular(target) is THE least number "
+         "2^a 3^b 5^c that is >= target (smooth, >=, minimal; fixed points, idempotent, monotone, < 2*target), hence the FFT length "
+         "next_regular(2n+1) is a regular number >= 2n-1 and no smaller regular length >= 2n+1 exists. Tied to the code by "
          "differential correspondence (HLN statistic, mean, length, CI on the implementation's own statistic, acovf vs the direct "
          "estimator at every lag, _next_regular exhaustively up to 1e4/1e5). The oracle checks the real diebold_mariano against the "
          "Spec, sign symmetry and series independence for both methods, scale invariance (HLN; factors down to 2^-30 and up to 2^30, "
